@@ -239,7 +239,10 @@ def collect(syn, path):
                             visit_expr(x, top_name, fn, scopes)
 
     for (p, impl, fn) in syn.all_fns(path=path):
+        n0 = len(out)
         visit_fn(fn, fn["name"], [{k: ("const", v) for k, v in consts.items()}])
+        for t in out[n0:]:
+            t.file = p  # (a child module's file, when the function lives there)
     return out, consts
 
 
